@@ -336,17 +336,36 @@ func (m *MTProto) processResponse(msg messages.Common) error {
 		data, err = tl.DecodeUnknownObject(msg.GetMsg())
 	}
 	if err != nil {
-		return errors.Wrap(err, "unmarshaling response")
+		err = errors.Wrap(err, "unmarshaling response")
+	} else {
+		err = m.dispatchResponse(data)
 	}
 
+	// a content-related message is acknowledged whether or not the client could handle it
+	if (msg.GetSeqNo() & 1) != 0 {
+		_, ackErr := m.MakeRequest(&objects.MsgsAck{MsgIDs: []int64{int64(msg.GetMsgID())}})
+		if ackErr != nil && err == nil {
+			err = errors.Wrap(ackErr, "sending ack")
+		}
+	}
+
+	return err
+}
+
+func (m *MTProto) dispatchResponse(data tl.Object) error {
 messageTypeSwitching:
 	switch message := data.(type) {
 	case *objects.MessageContainer:
+		// every message of the container is processed, the first failure is reported
+		var firstErr error
 		for _, v := range *message {
 			err := m.processResponse(v)
-			if err != nil {
-				return errors.Wrap(err, "processing item in container")
+			if err != nil && firstErr == nil {
+				firstErr = errors.Wrap(err, "processing item in container")
 			}
+		}
+		if firstErr != nil {
+			return firstErr
 		}
 
 	case *objects.BadServerSalt:
@@ -417,21 +436,9 @@ messageTypeSwitching:
 		}
 	}
 
-	if (msg.GetSeqNo() & 1) != 0 {
-		_, err := m.MakeRequest(&objects.MsgsAck{MsgIDs: []int64{int64(msg.GetMsgID())}})
-		if err != nil {
-			return errors.Wrap(err, "sending ack")
-		}
-	}
-
 	return nil
 }
 
-// tryToProcessErr пытается автоматически решить ошибку полученную от сервера. в случае успеха вернет nil,
-// в случае если нет способа решить эту проблему, возвращается сама ошибка
-// если в процессе решения появлиась еще одна ошибка, то она оборачивается в errors.Wrap, основная
-// игнорируется (потому что гарантируется, что обработка ошибки надежна, и параллельная ошибка это что-то из
-// ряда вон выходящее)
 // expectedTypesFor returns the decoder hints of the request that body answers. Hints are stored under
 // the msg_id of the request (see sendPacket); an rpc_result names that id in its req_msg_id field.
 func (m *MTProto) expectedTypesFor(body []byte) []reflect.Type {
